@@ -440,3 +440,53 @@ def shared_subtrees_differ(graph, m, tree, seen=None):
         if shared_subtrees_differ(graph, k, v[1], seen):
             return True
     return False
+
+
+# --------------------------------------------------------------------------- corpus: protocol text -> structures
+def graph_from_sx(text):
+    from common import parse_sx
+    g = parse_sx(text)
+    kinds, mods = {}, []
+
+    def ent(e):
+        if e[1] == "none":
+            return (str(e[0]), None)
+        kinds[int(e[1])] = str(e[2])
+        return (str(e[0]), int(e[1]))
+    for m in g[1:]:
+        parts = {p[0]: p[1:] for p in m[1:]}
+        mods.append({"params": [ent(e) for e in parts["params"]],
+                     "buffers": [ent(e) + (True,) for e in parts["buffers"]],
+                     "plain": [ent(e) for e in parts["plain"]],
+                     "kids": [(str(k[0]), None if k[1] == "none" else int(k[1])) for k in parts["kids"]]})
+    return {"mods": mods, "kinds": kinds}
+
+
+def tree_from_parsed(t, kinds):
+    out = []
+    for nm, v in t[1:]:
+        if v[0] == "leaf":
+            kinds[int(v[1])] = str(v[2])
+            out.append((str(nm), ("leaf", int(v[1]))))
+        else:
+            out.append((str(nm), ("node", tree_from_parsed(v, kinds))))
+    return out
+
+
+def tree_from_sx(text, kinds):
+    from common import parse_sx
+    return tree_from_parsed(parse_sx(text), kinds)
+
+
+def prog_from_sx(text, kinds):
+    from common import parse_sx
+
+    def stmt(s):
+        if s == "nop":
+            return "nop"
+        if s == "raise":
+            return ("raise", "direct")
+        if s[0] in ("block", "blockt"):
+            return ("block", tree_from_parsed(s[1], kinds), int(s[2]), [stmt(x) for x in s[3:]], "inline" if s[0] == "blockt" else None)
+        return ("try", [stmt(x) for x in s[1:]])
+    return [stmt(x) for x in parse_sx(text)]
